@@ -18,6 +18,7 @@ pub fn fuzz_bin(target: &str) -> Option<String> {
 /// Run one campaign. A crash artifact becomes a violation whose replay file is the artifact.
 pub fn campaign(ctx: &Ctx, prop: &str, target: &str, runs: u64, max_len: u32) -> SubReport {
     let mut rep = SubReport::new(&format!("libfuzzer-{}", target));
+    crate::supervise::journal_clear();
     let bin = match fuzz_bin(target) {
         Some(b) => b,
         None => {
@@ -39,46 +40,62 @@ pub fn campaign(ctx: &Ctx, prop: &str, target: &str, runs: u64, max_len: u32) ->
     }
     let workers = ctx.threads.max(1).min(8);
     let per = runs / workers as u64;
-    let out = std::process::Command::new(&bin)
-        .arg(&corpus)
-        .arg(format!("-runs={}", per))
-        .arg(format!("-seed={}", (ctx.seed % 4_000_000_000).max(1)))
-        .arg("-len_control=0")
-        .arg(format!("-max_len={}", max_len))
-        .arg(format!("-artifact_prefix={}/", arts))
-        .arg(format!("-fork={}", workers))
-        .arg("-ignore_crashes=0")
-        .arg("-print_final_stats=1")
-        .env("RUST_BACKTRACE", "0")
-        .output();
-    let out = match out {
-        Ok(o) => o,
-        Err(e) => {
-            rep.inconclusive.push(format!("cannot run fuzz target {}: {}", target, e));
-            return rep;
+    // one libFuzzer process per worker, each with its own corpus copy and seed
+    let mut children = vec![];
+    for w in 0..workers {
+        let cdir = format!("{}/c{}", work, w);
+        let _ = std::fs::create_dir_all(&cdir);
+        if let Ok(rd) = std::fs::read_dir(&corpus) {
+            for e in rd.flatten() {
+                let _ = std::fs::copy(e.path(), format!("{}/{}", cdir, e.file_name().to_string_lossy()));
+            }
         }
-    };
-    let text = String::from_utf8_lossy(&out.stderr).to_string();
-    let mut execs = 0u64;
-    for l in text.lines() {
-        if let Some(x) = l.strip_prefix("stat::number_of_executed_units:") {
-            execs += x.trim().parse::<u64>().unwrap_or(0);
-        }
-    }
-    // with -fork the per-job stats are not always printed: fall back to the requested number
-    if execs == 0 {
-        for l in text.lines() {
-            if l.starts_with('#') {
-                if let Some(n) = l[1..].split(|c: char| !c.is_ascii_digit()).next().and_then(|x| x.parse::<u64>().ok()) {
-                    execs = execs.max(n);
-                }
+        let child = std::process::Command::new(&bin)
+            .arg(&cdir)
+            .arg(format!("-runs={}", per))
+            .arg(format!("-seed={}", ((ctx.seed.wrapping_mul(1000) + w as u64) % 4_000_000_000).max(1)))
+            .arg("-len_control=0")
+            .arg(format!("-max_len={}", max_len))
+            .arg(format!("-artifact_prefix={}/", arts))
+            .arg("-print_final_stats=1")
+            .arg("-rss_limit_mb=3000")
+            .env("RUST_BACKTRACE", "0")
+            .stdout(std::process::Stdio::null())
+            .stderr(std::process::Stdio::piped())
+            .spawn();
+        match child {
+            Ok(c) => children.push((cdir, c)),
+            Err(e) => {
+                rep.inconclusive.push(format!("cannot run fuzz target {}: {}", target, e));
+                return rep;
             }
         }
     }
+    let mut text = String::new();
+    let mut execs = 0u64;
+    let mut corpus_n = 0u64;
+    let mut all_ok = true;
+    for (cdir, c) in children {
+        match c.wait_with_output() {
+            Ok(o) => {
+                let t = String::from_utf8_lossy(&o.stderr).to_string();
+                for l in t.lines() {
+                    if let Some(x) = l.strip_prefix("stat::number_of_executed_units:") {
+                        execs += x.trim().parse::<u64>().unwrap_or(0);
+                    }
+                }
+                if !o.status.success() {
+                    all_ok = false;
+                    text.push_str(&t.lines().rev().take(12).collect::<Vec<_>>().into_iter().rev().collect::<Vec<_>>().join("\n"));
+                }
+                corpus_n += std::fs::read_dir(&cdir).map(|r| r.count()).unwrap_or(0) as u64;
+            }
+            Err(_) => all_ok = false,
+        }
+    }
     rep.evaluations = execs.max(1);
-    let corpus_n = std::fs::read_dir(&corpus).map(|r| r.count()).unwrap_or(0) as u64;
     rep.nontrivial_extra = corpus_n;
-    rep.notes.push(format!("libFuzzer: {} executions requested ({} jobs), corpus grew to {} coverage-distinct inputs; distinct_nontrivial counts corpus entries", runs, workers, corpus_n));
+    rep.notes.push(format!("libFuzzer: {} executions in {} processes ({} requested), corpora grew to {} coverage-distinct inputs in total; distinct_nontrivial counts corpus entries", execs, workers, runs, corpus_n));
     // artifacts
     let mut found = vec![];
     if let Ok(rd) = std::fs::read_dir(&arts) {
@@ -104,8 +121,8 @@ pub fn campaign(ctx: &Ctx, prop: &str, target: &str, runs: u64, max_len: u32) ->
                 });
             }
         }
-    } else if !out.status.success() && !text.contains("Done") {
-        rep.inconclusive.push(format!("fuzz target {} exited with {:?} without an artifact", target, out.status.code()));
+    } else if !all_ok {
+        rep.inconclusive.push(format!("fuzz target {} exited abnormally without an artifact: {}", target, text.chars().take(600).collect::<String>()));
     }
     rep.sample(json!({"target": target, "runs": runs, "max_len": max_len, "seed_corpus": seed_dir}));
     let _ = std::fs::remove_dir_all(&work);
